@@ -3,6 +3,7 @@ package main
 import (
 	"context"
 	"fmt"
+	"net/url"
 	"sort"
 	"strings"
 	"time"
@@ -25,7 +26,7 @@ func init() {
 }
 
 type c07In struct {
-	Kind    string // upload patch delete compose copy getmeta media
+	Kind    string // upload patch delete compose copy getmeta listmeta media
 	Op      gOp
 	Name    string
 	Summary string // object summary the op would create (uploads, compose, copy)
@@ -197,7 +198,7 @@ func c07Model(states map[string]c07State) porcupine.Model {
 					return out.Status == 404, same
 				}
 				return ok2xx(out.Status) && out.Metagen == 1 && out.Proj == st.Sum+"\x00"+sizeMd5(st.Content), same
-			case "getmeta":
+			case "getmeta", "listmeta":
 				if !st.Exists {
 					return out.Status == 404, same
 				}
@@ -406,6 +407,12 @@ func runC07(r *Run) {
 				case 5:
 					op := gOp{Kind: "Get", Bucket: "bkt", Name: name}
 					in = c07In{Kind: "getmeta", Op: op, Name: name, Desc: op.String()}
+					if d.n(3) == 0 {
+						// the same read through a listing (prefix = the name): the item, if listed,
+						// must be one version of the object like any other metadata read
+						in = c07In{Kind: "listmeta", Op: op, Name: name, Desc: fmt.Sprintf("List bkt prefix=%q -> item %q", name, name)}
+						r.Probe("c07.listing_as_a_read")
+					}
 				default:
 					op := gOp{Kind: "Media", Bucket: "bkt", Name: name, Form: d.n(3)}
 					in = c07In{Kind: "media", Op: op, Name: name, Desc: op.String()}
@@ -462,7 +469,18 @@ func runC07(r *Run) {
 					in.Cancel = true
 				}
 				var resp gResp
-				if in.Cancel {
+				if in.Kind == "listmeta" {
+					hr, lp := w.ListPage("bkt", url.Values{"prefix": {in.Name}})
+					resp = gResp{Status: hr.Status, Body: hr.Body}
+					if lp != nil {
+						resp.Status = 404
+						for _, it := range lp.Items {
+							if it.Name == in.Name {
+								resp.Status, resp.Meta = 200, it
+							}
+						}
+					}
+				} else if in.Cancel {
 					resp = execGCtx(w, op, cancelCtx)
 				} else {
 					resp = execG(w, op)
